@@ -55,7 +55,16 @@ override_entrypoint_args) is a fourth entry point (mode ('lw',)): on the corpus,
 and of the mutants of every class and on the malformed documents it must answer with nothing or with a
 DSLInvalidError that names locations, must not reject a valid namespace, must not accept a STRUCTURALLY invalid one
 (Invalid.deep False: decided without evaluating values), and is compared with coq/Dsl/Load.v [lightweight] (the
-traversal alone) by check_lw."""
+traversal alone) by check_lw.
+
+KEY OUTPUTS (entrypoint.output[].data-in) and ENVIRONMENT families: ~35% of the generated namespaces declare 1-3 key outputs
+whose data-in is an absolute complete reference to a file of a component instance at any depth; the flattener resolves it
+like any reference (producer = longest component location prefixing the path) and the predicate demands the compiled
+data-in under the same naming bijection; a data-in that leads to no component instance (misspelt step, a workflow
+instance, not absolute) or a second output with one name makes the namespace invalid (mutant classes output_*);
+coq/Dsl/Outputs.v (compile_out / lightweight_out) models the block and is tied by check_out / check_lw_out.  The
+dictionaries of one namespace come mostly from ONE family (base + variables whose value is empty / 0 / False ...), so that
+sibling and nested instances run in environments that differ only in such variables."""
 import json
 import os
 import re
@@ -78,7 +87,7 @@ ASSUMPTIONS = [
     'generated); booleans and lists are not '
     'legal ParameterValueType (a list is a schema fault, checked through the configuration loader only); '
     'a partial reference (<a/b> without :method) is the sole content of a value; '
-    'literal text avoids < > % " / : ; no "replica", no workflowAttributes/replicate, no environments, no key outputs, '
+    'literal text avoids < > % " / : ; no "replica", no workflowAttributes/replicate, no environments section, key outputs hold name and data-in only, '
     'no legacy "input/file":ref references, parameter defaults are literal text or typed values, no step is called '
     'entry-instance; user variable files hold a global section of scalars only',
     'the worklist of discover_all_instances_of_templates is modelled as the equivalent depth-first recursion '
@@ -87,6 +96,9 @@ ASSUMPTIONS = [
 HEADER = 'Require Import V.Lib.PyStr V.Dsl.Model.\nOpen Scope string_scope.\nOpen Scope list_scope.'
 SPEC_HEADER = 'Require Import V.Lib.PyStr V.Dsl.Model V.Dsl.Spec.\nOpen Scope string_scope.\nOpen Scope list_scope.'
 LOAD_HEADER = 'Require Import V.Lib.PyStr V.Dsl.Model V.Dsl.Load.\nOpen Scope string_scope.\nOpen Scope list_scope.'
+
+OUT_HEADER = ('Require Import V.Lib.PyStr V.Dsl.Model V.Dsl.Load V.Dsl.Outputs.\nOpen Scope string_scope.\n'
+              'Open Scope list_scope.')
 
 METHODS = ['ref', 'output', 'copy', 'link']
 
@@ -175,6 +187,10 @@ def to_doc(ns):
     doc = {'entrypoint': {'entry-instance': ns['entry'],
                           'execute': [{'target': '<entry-instance>', 'args': {n: rv(v) for n, v in ns['eargs']}}]},
            'workflows': [], 'components': []}
+    if ns.get('outputs'):
+        # key outputs (entrypoint.output[].data-in): absolute complete references, in the spellings of render_value
+        doc['entrypoint']['output'] = [{'name': n, 'data-in': render_value([t], sp + 3 * i)}
+                                       for i, (n, t) in enumerate(ns['outputs'])]
     for w in ns['wfs']:
         doc['workflows'].append({'signature': {'name': w['name'], 'parameters': params(w['params'])},
                                  'steps': {s: t for s, t in w['steps']},
@@ -230,7 +246,9 @@ def _collect(f, errs):
         comps.append([int(c.get('stage', 0)), c['name'], sorted(c.get('references', [])),
                       c.get('command', {}).get('arguments', ''), env])
     gl = f.get_platform_global_variables('default')
-    return {'kind': 'ok', 'comps': sorted(comps, key=lambda c: json.dumps(c, sort_keys=True)),
+    outs = f.raw().get('output') or {}
+    return {'kind': 'ok', 'outputs': sorted([n, json.dumps(o, sort_keys=True, default=str) if set(o) != {'data-in'}
+                                              else o['data-in']] for n, o in outs.items()), 'comps': sorted(comps, key=lambda c: json.dumps(c, sort_keys=True)),
             'globals': sorted([n, vkind(v), vstr(v)] for n, v in gl.items()),
             'validate': [type(e).__name__ + ': ' + str(e)[:200] for e in errs]}
 
@@ -372,6 +390,11 @@ class Invalid(Exception):
         self.deep = deep
 
 
+class Flat(dict):
+    """what the flattener returns: {location: ...} plus the key outputs [(name, producer location, file, method)]"""
+    outputs = ()
+
+
 _NAME = re.compile(r'(stage(?P<stage>([0-9]+))\.)?(?P<name>([A-Za-z0-9._-]*[A-Za-z_-]+))')
 
 
@@ -393,6 +416,9 @@ def spec(ns):
         templates[c['name']] = ('c', c)
     if ns['entry'] not in templates:
         raise Invalid('unknown entry')
+    onames = [n for n, _t in ns.get('outputs') or []]
+    if len(set(onames)) != len(onames):
+        raise Invalid('two key outputs carry the same name')
     instances = {}
 
     def ev(v, env, loc, siblings, keep=()):
@@ -470,7 +496,7 @@ def spec(ns):
         if best is None:
             raise Invalid('reference %s has no producer' % (path,), deep=True)
         return best
-    res = {}
+    res = Flat()
     for loc, (c, env) in instances.items():
         if _NAME.fullmatch(loc[-1]) is None:
             raise Invalid('step name is not a component name', deep=True)
@@ -497,6 +523,15 @@ def spec(ns):
                 raise Invalid('the environment of a component is not a dictionary', deep=True)
             envd = ev_[0][1]
         res[loc] = (args, refs, producer, envd)
+    # key outputs: the data-in of an output is an absolute reference; its producer is, like for any reference, the
+    # component instance with the longest location that prefixes it -- no such instance: the namespace is invalid
+    outs = []
+    for name, t in ns.get('outputs') or []:
+        if t[0] != 'O' or t[2] is None:
+            raise Invalid('the data-in of a key output is not a complete reference', deep=True)
+        pr = producer(t[1])
+        outs.append((name, pr, t[1][len(pr):], t[2]))
+    res.outputs = outs
     return res
 
 
@@ -544,7 +579,9 @@ def predicate(ns, impl):
                 pr = producer(t[1])
                 s += _ref_str(beta[pr], t[1][len(pr):], t[2])
         c = by_id[beta[l]]
-        return c[3] == s and set(c[2]) == set(_ref_str(beta[pr], f, m) for pr, f, m in refs) and c[4] == envd
+        # the variables of an environment reach the FlowIR as strings (FlowIRConcrete.get_environment)
+        envs = None if envd is None else {k: str(v) for k, v in envd.items()}
+        return c[3] == s and set(c[2]) == set(_ref_str(beta[pr], f, m) for pr, f, m in refs) and c[4] == envs
 
     # producers before consumers, so that each instance is checked as soon as it is named
     order, placed = [], set()
@@ -561,7 +598,8 @@ def predicate(ns, impl):
 
     def search(i, beta, used):
         if i == len(order):
-            return True
+            # the key outputs point to the (renamed) producers of the specification
+            return sorted([n, _ref_str(beta[pr], f, m)] for n, pr, f, m in want.outputs) == impl.get('outputs', [])
         for cid in cands[order[i]]:
             if cid in used:
                 continue
@@ -578,7 +616,7 @@ def predicate(ns, impl):
     except OverflowError:
         return 'INCONCLUSIVE'
     if not found:
-        return 'no naming of the instances makes arguments, references and environments of the compiled components agree with the specification'
+        return 'no naming of the instances makes arguments, references, environments of the compiled components and the key outputs agree with the specification'
     return None
 
 
@@ -644,6 +682,11 @@ def c_impl(impl):
     return '(IExc %s)' % cstr(impl['type'])
 
 
+def c_kouts(outs):
+    """the key outputs as a term of type list kout of coq/Dsl/Outputs.v"""
+    return clist(outs, lambda o: '(%s, (%s, %s))' % (cstr(o[0]), clist(o[1][1], cstr), cstr(o[1][2])))
+
+
 def c_lw_impl(impl):
     if impl['kind'] == 'lwok':
         return 'LIOk'
@@ -659,6 +702,20 @@ WORDS = ['cat', 'run', '-n', 'hello world', 'v1.2', 'x', 'out_dir', '--flag', 'a
 FILES = [['out.txt'], ['d', 'f.dat'], ['results'], []]
 NUMS = [0, 7, 42, -3, 1.5, 0.0, 2.25]
 ENVS = [{}, {'A': 'b'}, {'DEFAULTS': 'PATH', 'WHO': 'me'}, {'OMP_NUM_THREADS': '4'}]
+# variables whose value is meaningful although "falsy" / not a string: two environments that differ in nothing but such
+# a variable are DIFFERENT environments (the compiler shares one FlowIR environment between components whose
+# dictionaries are equal); each namespace draws most of its dictionaries from ONE family base + extension
+ENV_EXTRAS = [('CUDA_VISIBLE_DEVICES', ''), ('PYTHONHASHSEED', 0), ('DEBUG', False), ('EMPTY', ''), ('N', 0),
+              ('RATE', 0.0), ('Z', '0'), ('VERBOSE', True), ('LEVEL', 1), ('A', ''), ('A', 'B')]
+KEY_OUTPUT_NAMES = ['energies', 'k', 'out-1', 'table', 'Model', 'x.y']
+
+
+def near_envs(envs):
+    """coverage: two of the dictionaries are different but equal once the variables with an empty / zero / false value
+    are left out"""
+    keys = set(json.dumps(d, sort_keys=True) for d in envs if d)
+    trimmed = set(json.dumps({k: v for k, v in json.loads(x).items() if v}, sort_keys=True) for x in keys)
+    return len(trimmed) < len(keys)
 
 
 class Gen(object):
@@ -671,6 +728,7 @@ class Gen(object):
         self.rng = rng
         self.depth = depth
         self.templates = {}     # name -> dict(kind, level, params=[(name, kind, default)], ...)
+        self.env_base = dict(rng.choice(ENVS[1:]))
         self.comps = []
         self.wfs = []
 
@@ -687,7 +745,17 @@ class Gen(object):
         return [L(self.rng.choice(WORDS))]
 
     def env_value(self):
-        return [V(dict(self.rng.choice(ENVS)))]
+        r = self.rng
+        if r.random() < 0.55:
+            # the family of this namespace: its base, alone or extended by one or two variables (mostly falsy ones)
+            d = dict(self.env_base)
+            for _ in range(r.choice([0, 1, 1, 1, 2])):
+                k, v = r.choice(ENV_EXTRAS[:6] if r.random() < 0.7 else ENV_EXTRAS)
+                d[k] = v
+            if r.random() < 0.3:
+                d = dict(reversed(list(d.items())))     # the order of the keys is not part of the environment
+            return [V(d)]
+        return [V(dict(r.choice(ENVS)))]
 
     def gen_component(self, name):
         r = self.rng
@@ -909,7 +977,7 @@ class Gen(object):
         return v[:-1]
 
 
-def strip(ns_templates, entry, eargs, sp, override=None):
+def strip(ns_templates, entry, eargs, sp, override=None, outputs=None):
     wfs, comps = [], []
     for t in ns_templates:
         ps = [(n, d) for n, _k, d in t['params']]
@@ -919,7 +987,39 @@ def strip(ns_templates, entry, eargs, sp, override=None):
             comps.append({'name': t['name'], 'params': ps, 'vars': list(t['vars']), 'args': list(t['args']),
                           'envp': t.get('envp')})
     kinds = {t['name']: {n: (k if isinstance(k, str) else 'ref') for n, k, _d in t['params']} for t in ns_templates}
-    return {'entry': entry, 'eargs': eargs, 'wfs': wfs, 'comps': comps, 'sp': sp, 'kinds': kinds, 'override': override}
+    return {'entry': entry, 'eargs': eargs, 'wfs': wfs, 'comps': comps, 'sp': sp, 'kinds': kinds, 'override': override,
+            'outputs': list(outputs or [])}
+
+
+def instance_locations(ns, limit=6):
+    """(locations of the component instances, locations of the workflow instances) below the entry instance --
+    a plain walk over steps, used to aim key outputs (the flattener decides what is valid)"""
+    tm = {t['name']: t for t in ns['wfs'] + ns['comps']}
+    comps, wfs = [], []
+
+    def walk(loc, tn, depth):
+        t = tm.get(tn)
+        if t is None or depth > limit:
+            return
+        if 'steps' not in t:
+            comps.append(loc)
+            return
+        wfs.append(loc)
+        for s, x in t['steps']:
+            walk(loc + (s,), x, depth + 1)
+    walk(('entry-instance',), ns['entry'], 0)
+    return comps, wfs
+
+
+def key_output(rng, loc):
+    return O(list(loc) + rng.choice(FILES), rng.choice(METHODS[:2]))
+
+
+def gen_outputs(ns, rng):
+    """0-3 key outputs produced by component instances at any depth (the same instance may produce several)"""
+    comps, _w = instance_locations(ns)
+    names = rng.sample(KEY_OUTPUT_NAMES, rng.choice([1, 1, 2, 3]))
+    return [(n, key_output(rng, rng.choice(comps))) for n in names] if comps else []
 
 
 def gen_namespace(rng):
@@ -973,7 +1073,10 @@ def gen_namespace(rng):
         rng.shuffle(order)
         comps = g.comps[:]
         rng.shuffle(comps)
-        return strip(order + comps, 'main', eargs, rng.choice([0, 0, 1, 2, 3, 5, 6, 7]), override)
+        ns = strip(order + comps, 'main', eargs, rng.choice([0, 0, 1, 2, 3, 5, 6, 7]), override)
+        if rng.random() < 0.35:
+            ns['outputs'] = gen_outputs(ns, rng)
+        return ns
     raise RuntimeError('generator failed')
 
 
@@ -1026,7 +1129,11 @@ KINDS = ['unknown_template', 'cycle', 'missing_arg', 'unknown_arg', 'unknown_par
          # (entrypoint.execute[0].args / override_entrypoint_args; user variables: see _conf_mode(fault='ref'))
          'entry_param_ref', 'override_param_ref',
          # ... and the sibling one level down: a step refers to a parameter although its parent workflow has NONE
-         'noparam_parent_ref']
+         'noparam_parent_ref',
+         # key outputs (entrypoint.output): a data-in that is a well formed absolute reference but leads to no component
+         # instance -- a misspelt step at any depth, a workflow instance (the entry instance itself, a nested one,
+         # with or without a file below it), a reference that is not absolute -- and two outputs with one name
+         'output_unknown_step', 'output_to_workflow', 'output_not_absolute', 'output_dup_name']
 
 
 def scopeless_value(ns, rng, dict_param=False):
@@ -1198,6 +1305,36 @@ def mutate(ns, rng, kind=None):
         tg2, args2 = w2['exec'][i]
         pn = rng.choice([p for p, k in ns['kinds'].get(dict(w2['steps'])[tg2], {}).items() if k == 'text'])
         w2['exec'][i] = (tg2, [a for a in args2 if a[0] != pn] + [(pn, scopeless_value(ns, rng))])
+    elif kind.startswith('output_'):
+        comps, wfs = instance_locations(ns)
+        if not comps:
+            return None
+        if not ns['outputs']:
+            ns['outputs'] = gen_outputs(ns, rng)
+        i = rng.randrange(len(ns['outputs']))
+        name = ns['outputs'][i][0]
+        loc = list(rng.choice(comps))
+        if len(loc) < 2:
+            return None
+        if kind == 'output_unknown_step':
+            j = rng.randrange(1, len(loc))
+            loc[j] = rng.choice([loc[j] + 'x', loc[j] + 'd', 'nosuchstep', loc[j][:-1] or 'q', loc[j].upper()])
+            if rng.random() < 0.3:
+                loc = loc[:j + 1]       # ... and nothing below the misspelt step
+            bad = key_output(rng, loc)
+        elif kind == 'output_to_workflow':
+            wl = list(rng.choice(wfs))
+            bad = O(wl + rng.choice([[], [], ['out.txt'], ['nosuchinner', 'f.dat'], ['results']]), rng.choice(METHODS[:2]))
+        elif kind == 'output_not_absolute':
+            if len(loc) < 2:
+                return None
+            bad = key_output(rng, loc[1:] if rng.random() < 0.7 else ['entry'] + loc[1:])
+        else:
+            bad = key_output(rng, loc)
+            name = rng.choice([n for n, _t in ns['outputs']])
+            ns['outputs'].insert(rng.randrange(len(ns['outputs']) + 1), (name, bad))
+            return ns, kind
+        ns['outputs'][i] = (name, bad)
     elif kind == 'entry_ref':
         e = tmap[ns['entry']]
         if not e['params']:
@@ -1238,6 +1375,7 @@ def _norm(ns):
     ns['override'] = None if ns.get('override') is None else [(a[0], [_t(t) for t in a[1]]) for a in ns['override']]
     for c in ns['comps']:
         c.setdefault('envp', None)
+    ns['outputs'] = [(o[0], _t(o[1])) for o in ns.get('outputs') or []]
     return ns
 
 
@@ -1357,6 +1495,44 @@ CORPUS = [
                             'wfs': [_w('main', [], [('inner', 'nested')], [('inner', [])]),
                                     _w('nested', [], [('say', 'echo')], [('say', [('message', [P('greeting')])])])],
                             'comps': [_c('echo', [('message', None)], [P('message')])]}),
+    # the environments of sibling / nested instances of ONE component template differ only in variables whose value is
+    # empty, zero or false (declared default of a nested workflow, explicit argument, forwarded value): four environments
+    ('env_falsy_siblings', {'entry': 'main', 'eargs': [], 'sp': 0,
+                            'wfs': [_w('main', [('env', [V({'T': '4'})])], [('one', 'job'), ('sub', 'inner'), ('two', 'job'), ('three', 'job')],
+                                       [('one', [('env', [P('env')])]), ('sub', []),
+                                        ('two', [('env', [V({'T': '4', 'SEED': 0})])]),
+                                        ('three', [('env', [V({'D': False, 'T': '4'})])])]),
+                                    _w('inner', [('env', [V({'T': '4', 'GPUS': ''})])], [('post', 'job')],
+                                       [('post', [('env', [P('env')])])])],
+                            'comps': [_ce('job', [('env', None)], [L('run')], 'env')]}),
+    # key outputs: produced by a step of the entry workflow, by a step of a nested workflow (three spellings), twice by
+    # one instance; the entry instance is a Component; then the data-in leads to no component instance (misspelt step,
+    # a nested workflow instance, a step that does not exist inside it), and two outputs share a name
+    ('key_outputs_nested', {'entry': 'main', 'eargs': [], 'sp': 1,
+                            'outputs': [('first', O(['entry-instance', 'a', 'out.txt'], 'ref')),
+                                        ('deep', O(['entry-instance', 'w', 'a', 'd', 'f.dat'], 'output')),
+                                        ('dir', O(['entry-instance', 'w', 'a'], 'ref')),
+                                        ('again', O(['entry-instance', 'w', 'b', 'results'], 'output'))],
+                            'wfs': [_w('main', [], [('a', 'c'), ('w', 'wa')], [('a', []), ('w', [])]),
+                                    _w('wa', [], [('a', 'c'), ('b', 'c')], [('a', []), ('b', [])])],
+                            'comps': [_c('c', [], [L('hi')])]}),
+    ('key_output_component_entry', {'entry': 'c', 'eargs': [], 'sp': 2,
+                                    'outputs': [('k', O(['entry-instance', 'out.txt'], 'output')), ('d', O(['entry-instance'], 'ref'))],
+                                    'wfs': [], 'comps': [_c('c', [], [L('hi')])]}),
+    ('key_output_misspelt_step', {'entry': 'main', 'eargs': [], 'sp': 0,
+                                  'outputs': [('ok', O(['entry-instance', 'a', 'out.txt'], 'ref')),
+                                              ('bad', O(['entry-instance', 'w', 'aa', 'out.txt'], 'ref'))],
+                                  'wfs': [_w('main', [], [('a', 'c'), ('w', 'wa')], [('a', []), ('w', [])]),
+                                          _w('wa', [], [('a', 'c')], [('a', [])])],
+                                  'comps': [_c('c', [], [L('hi')])]}),
+    ('key_output_to_workflow', {'entry': 'main', 'eargs': [], 'sp': 0,
+                                'outputs': [('bad', O(['entry-instance', 'w', 'out.txt'], 'output'))],
+                                'wfs': [_w('main', [], [('a', 'c'), ('w', 'wa')], [('a', []), ('w', [])]),
+                                        _w('wa', [], [('a', 'c')], [('a', [])])],
+                                'comps': [_c('c', [], [L('hi')])]}),
+    ('key_output_dup_name', {'entry': 'main', 'eargs': [], 'sp': 0,
+                             'outputs': [('k', O(['entry-instance', 'a', 'out.txt'], 'ref')), ('k', O(['entry-instance', 'a'], 'ref'))],
+                             'wfs': [_w('main', [], [('a', 'c')], [('a', [])])], 'comps': [_c('c', [], [L('hi')])]}),
     # F6e (open): the only component step carries stage 1 -- compiles and validates, cannot be loaded
     ('F6e_stage_gap', {'entry': 'main', 'eargs': [], 'sp': 0,
                        'wfs': [_w('main', [], [('stage1.b', 'c')], [('stage1.b', [])])], 'comps': [_c('c', [], [L('hi')])]}),
@@ -1389,6 +1565,7 @@ def _explore(ctx, cases):
     terms, sterms, kept, s_kept = [], [], [], []
     ov_terms, ov_kept, ld_terms, ld_kept, gl_terms, gl_kept = [], [], [], [], [], []
     lw_terms, lw_kept = [], []
+    out_terms, out_kept, lwo_terms, lwo_kept = [], [], [], []
     for case in cases:
         label, ns = case[0], case[1]
         mode = case[2] if len(case) > 2 else None
@@ -1424,6 +1601,12 @@ def _explore(ctx, cases):
                 ctx.count('duplicate step names')
             if any(v[3] for v in want.values()):
                 ctx.count('a component runs in a dictionary environment received through its parameters')
+            if near_envs([v[3] for v in want.values() if v[3]]):
+                ctx.count('two components run in environments that differ only in empty / zero / false variables')
+            if want.outputs:
+                ctx.count('key outputs declared')
+                if any(len(o[1]) > 2 for o in want.outputs):
+                    ctx.count('a key output is produced inside a nested workflow')
             if ns.get('override') is not None:
                 ctx.count('override_entrypoint_args given')
             for what in var_collisions(eff):
@@ -1446,11 +1629,27 @@ def _explore(ctx, cases):
             ctx.fail({'label': label, 'ns': ns, 'mode': mode, 'doc': doc, 'impl': impl}, why, classes)
             if classes:
                 continue    # the loader's answer is the finding; the compiler itself is compared on the direct cases
+        outs = ns.get('outputs') or []
+        if lw and outs:
+            lwo_terms.append('(Some %s, %s, %s, %s)' % (c_ns(ns), copt(ns.get('override'), c_args), c_kouts(outs), c_lw_impl(impl)))
+            lwo_kept.append((label, ns, doc, impl, mode))
+            continue
         if lw:
             lw_terms.append('(Some %s, %s, %s)' % (c_ns(ns), copt(ns.get('override'), c_args), c_lw_impl(impl)))
             lw_kept.append((label, ns, doc, impl, mode))
             continue
-        if mode is None and ns.get('override') is None:
+        if outs:
+            # key outputs: the compiler model with the key-output block (coq/Dsl/Outputs.v compile_out) on the effective
+            # namespace, whatever the entry point; the specification of the COMPONENTS is tied on the namespace without them
+            out_terms.append('(Some %s, @None (list (string * value)), %s, %s, %s)' % (
+                c_ns(eff), c_kouts(outs), c_impl(impl), clist(impl.get('outputs', []), lambda o: cpair(cstr(o[0]), cstr(o[1])))))
+            out_kept.append((label, ns, doc, impl, mode))
+            eff = dict(eff, outputs=[])
+            try:
+                want = spec(eff)
+            except Invalid:
+                want = None
+        elif mode is None and ns.get('override') is None:
             terms.append(cpair(c_ns(ns), c_impl(impl)))
             kept.append((label, ns, doc, impl))
         elif mode is None:
@@ -1483,6 +1682,16 @@ def _explore(ctx, cases):
             continue
         bad = ctx.model_mismatches(LOAD_HEADER, tms, fn, chunk=40, name=nm)
         for i in bad:
+            label, ns, doc, impl, mode = kp[i]
+            ctx.disagree({'label': label, 'ns': ns, 'mode': mode, 'doc': doc}, impl, tms[i][-1200:], what)
+    for tms, kp, fn, nm, what in (
+            (out_terms, out_kept, 'check_out', 'outputs',
+             'compile_out (coq/Dsl/Outputs.v) = namespace_to_flowir on a namespace with key outputs: components, compiled data-in of every output, error locations'),
+            (lwo_terms, lwo_kept, 'check_lw_out', 'lwoutputs',
+             'lightweight_out (coq/Dsl/Outputs.v) = lightweight_validate on a namespace with key outputs')):
+        if not tms:
+            continue
+        for i in ctx.model_mismatches(OUT_HEADER, tms, fn, chunk=40, name=nm):
             label, ns, doc, impl, mode = kp[i]
             ctx.disagree({'label': label, 'ns': ns, 'mode': mode, 'doc': doc}, impl, tms[i][-1200:], what)
     # the Coq specification spec_ns (coq/Dsl/Spec.v, the object of the refinement theorems) is tied twice: it must
@@ -1605,7 +1814,7 @@ def run(ctx):
     ctx.rule = ('valid namespace with >= 2 component instances and >= 1 producer->consumer edge, or an invalid '
                 '(single-fault) namespace or malformed document; distinct by rendered document, override and entry point')
     rng = ctx.rng
-    n_valid, n_mut, n_conf = (700, 520, 90) if ctx.tier == 'quick' else (5000, 3900, 1000)
+    n_valid, n_mut, n_conf = (700, 610, 90) if ctx.tier == 'quick' else (5000, 4550, 1000)
     n_lw = 120 if ctx.tier == 'quick' else 900
     try:
         cases = []
